@@ -16,7 +16,8 @@ if cargo test -p $CRATE --offline "${DEMO_ARGS[@]}" > /tmp/seedv/demo_clean.log 
 git apply "$SRC/patch.diff" || { res "patch.diff does not apply"; exit 2; }
 if cargo test -p $CRATE --offline "${DEMO_ARGS[@]}" > /tmp/seedv/demo_patched.log 2>&1; then res "demo PASSES with patch (not a demonstration)"; exit 2; else res "demo fails with patch: yes"; fi
 git apply -R "$SRC/demo.diff"
-if cargo test -p $CRATE --offline --lib > /tmp/seedv/lib_patched.log 2>&1; then res "existing $CRATE lib tests pass with patch: yes ($(grep -E '^test result' /tmp/seedv/lib_patched.log | head -1))"; else res "existing tests FAIL with patch"; grep -E "^test .* FAILED|failed" /tmp/seedv/lib_patched.log | head; exit 2; fi
+LIBARGS=(); if [ "$CRATE" = celestia-grpc ]; then LIBARGS=(-- --exact $(cat /verif/scripts/grpc_stable_tests.txt)); fi
+if cargo test -p $CRATE --offline --lib "${LIBARGS[@]}" > /tmp/seedv/lib_patched.log 2>&1; then res "existing $CRATE lib tests pass with patch: yes ($(grep -E '^test result' /tmp/seedv/lib_patched.log | head -1))"; else res "existing tests FAIL with patch"; grep -E "^test .* FAILED|failed" /tmp/seedv/lib_patched.log | head; exit 2; fi
 git checkout -- . && git clean -fdq
 flock -u 9
 OUT=$(/verif/scripts/mutant_run.sh "$SRC/patch.diff" $ID 2>&1); echo "$OUT" | tail -6
